@@ -127,6 +127,36 @@ func (pkg *Package) includeIO(summary *j5convert.FileSummary, deps packageDepend
 	}
 }
 
+// checkDuplicateExports reports a type of the file which an earlier file of
+// the package defines as well, at the position of the type in the file.
+func (pkg *Package) checkDuplicateExports(file *SourceFile) error {
+	names := maps.Keys(file.Summary.Exports)
+	sort.Strings(names) // for consistent error ordering
+	for _, name := range names {
+		if _, ok := pkg.Exports[name]; !ok {
+			continue
+		}
+		definedIn := ""
+		for _, earlier := range pkg.SourceFiles {
+			if _, ok := earlier.Summary.Exports[name]; ok {
+				definedIn = earlier.Filename
+				break
+			}
+		}
+		err := fmt.Errorf("%s is already defined in %s", name, definedIn)
+		pos := errpos.Position{}
+		if exportPos := file.Summary.Exports[name].Position; exportPos != nil {
+			pos = *exportPos
+		}
+		pos.Filename = &file.Filename
+		return errpos.AddSourceFile(&errpos.Err{
+			Pos: &pos,
+			Err: err,
+		}, file.Filename, string(file.RawSource))
+	}
+	return nil
+}
+
 func (pkg *Package) ResolveType(pkgName string, name string) (*j5convert.TypeRef, error) {
 	if pkgName == pkg.Name {
 		gotType, ok := pkg.Exports[name]
@@ -331,6 +361,9 @@ func (ps *PackageSet) loadLocalPackage(ctx context.Context, rb *resolveBaton, na
 		file, err := ps.localResolver.getFile(ctx, filename, rb.errs)
 		if err != nil {
 			return nil, fmt.Errorf("GetLocalFile %s: %w", filename, err)
+		}
+		if err := pkg.checkDuplicateExports(file); err != nil {
+			return nil, err
 		}
 		pkg.SourceFiles = append(pkg.SourceFiles, file)
 		pkg.includeIO(file.Summary, deps, file)
